@@ -304,6 +304,17 @@ func cmdCheck(args []string) int {
 	if len(samples) == 0 {
 		samples = append(samples, map[string]string{"note": "no obligations"})
 	}
+	// the slowest obligations (margin to the per-query timeout)
+	slow := append([]oblReport(nil), reports...)
+	sort.Slice(slow, func(i, j int) bool { return slow[i].Seconds > slow[j].Seconds })
+	if len(slow) > 8 {
+		slow = slow[:8]
+	}
+	if os.Getenv("GOVC_SLOW") != "" {
+		for _, r := range slow {
+			fmt.Fprintf(os.Stderr, "slow: %.1fs %s [%s]\n", r.Seconds, r.Name, r.Solver)
+		}
+	}
 	knownCount := 0
 	for _, r := range reports {
 		if r.Verdict == "known-finding" {
@@ -329,6 +340,7 @@ func cmdCheck(args []string) int {
 		"solver_s":                 round2(solverSec),
 		"load_s":                   round2(loadSec),
 		"samples":                  samples,
+		"slowest_obligations":      slow,
 		"decided":                  pd.Decided,
 		"not_decided":              pd.Undecided,
 		"notes":                    dedup(notes),
